@@ -33,7 +33,15 @@ type c14Shared struct {
 	c2    spg.CharRecipe // class flags: Allow, Require and Exclude all set
 	sfBad spg.SFFunction // its recipe is refused: the error path of separator functions
 	w4    *spg.WLRecipe
+	c3    spg.CharRecipe // requires the Ambiguous class (the one flag without a name)
+	sf2   spg.SFFunction // two-character separators, no requirement
+	w6    *spg.WLRecipe  // uses the preset SFDigits2
+	w5    *spg.WLRecipe  // a list of more than 4096 words with one uncapitalisable word near the end
 }
+
+// needBigList is set while a scenario that uses the 5001-word list runs
+// (building it for every schedule of every scenario would be wasteful).
+var needBigList bool
 
 func newC14Shared() *c14Shared {
 	x := &c14Shared{}
@@ -53,6 +61,23 @@ func newC14Shared() *c14Shared {
 	x.w2.SeparatorFunc = spg.SFDigits1
 	x.sf = spg.NewSFFunction(spg.CharRecipe{Length: 1, AllowChars: "xy", RequireSets: []string{"z"}})
 	x.c2 = spg.CharRecipe{Length: 3, Allow: spg.Lowers, Require: spg.Digits | spg.Symbols, Exclude: spg.Ambiguous}
+	x.c3 = spg.CharRecipe{Length: 2, Allow: spg.Lowers, Require: spg.Ambiguous}
+	x.sf2 = spg.NewSFFunction(spg.CharRecipe{Length: 2, AllowChars: "xyz"})
+	x.w6 = spg.NewWLRecipe(2, wl)
+	x.w6.SeparatorFunc = spg.SFDigits2
+	if needBigList {
+		big := make([]string, 0, 5001)
+		for i := 0; i < 5000; i++ {
+			big = append(big, fmt.Sprintf("w%dx", i))
+		}
+		big = append(big[:4990], append([]string{"4"}, big[4990:]...)...)
+		bwl, err := spg.NewWordList(big)
+		if err != nil {
+			panic(err)
+		}
+		x.w5 = spg.NewWLRecipe(2, bwl)
+		x.w5.Capitalize = spg.CSRandom
+	}
 	x.sfBad = spg.NewSFFunction(spg.CharRecipe{Length: 0, AllowChars: "xy"}) // refused at once: the error path
 	x.w4 = spg.NewWLRecipe(2, wl)
 	x.w4.SeparatorFunc = x.sfBad
@@ -94,6 +119,19 @@ var c14Calls = map[string]c14Call{
 	"w2.Generate":          {"w2.Generate", func(x *c14Shared) string { return genStr(x.w2.Generate) }},
 	"w3.Generate":          {"w3.Generate", func(x *c14Shared) string { return genStr(x.w3.Generate) }},
 	"w3.Entropy":           {"w3.Entropy", func(x *c14Shared) string { return fmt.Sprintf("%08x", math.Float32bits(x.w3.Entropy())) }},
+	"c3.Generate":          {"c3.Generate", func(x *c14Shared) string { return genStr(x.c3.Generate) }},
+	"c3.Entropy":           {"c3.Entropy", func(x *c14Shared) string { return fmt.Sprintf("%08x", math.Float32bits(x.c3.Entropy())) }},
+	"sf2()": {"sf2()", func(x *c14Shared) string {
+		s, e := x.sf2()
+		return fmt.Sprintf("%q %08x", s, math.Float32bits(float32(e)))
+	}},
+	"SFDigits2()": {"SFDigits2()", func(x *c14Shared) string {
+		s, e := spg.SFDigits2()
+		return fmt.Sprintf("%q %08x", s, math.Float32bits(float32(e)))
+	}},
+	"w6.Generate": {"w6.Generate", func(x *c14Shared) string { return genStr(x.w6.Generate) }},
+	"w5.Generate": {"w5.Generate", func(x *c14Shared) string { return genStr(x.w5.Generate) }},
+	"w5.Entropy":  {"w5.Entropy", func(x *c14Shared) string { return fmt.Sprintf("%08x", math.Float32bits(x.w5.Entropy())) }},
 	"sfBad()": {"sfBad()", func(x *c14Shared) string {
 		s, e := x.sfBad()
 		return fmt.Sprintf("%q %08x", s, math.Float32bits(float32(e)))
@@ -133,6 +171,10 @@ var c14Scenarios = []c14Scenario{
 	{"w3.Generate || w3.Entropy || w.Generate", [][]string{{"w3.Generate"}, {"w3.Entropy"}, {"w.Generate"}}},
 	{"failing separator function: sfBad()||sfBad()", [][]string{{"sfBad()"}, {"sfBad()"}}},
 	{"recipe with failing separator: w4.Generate||w4.Generate||sfBad()", [][]string{{"w4.Generate"}, {"w4.Generate"}, {"sfBad()"}}},
+	{"Require Ambiguous: Generate||Generate||Entropy", [][]string{{"c3.Generate"}, {"c3.Generate"}, {"c3.Entropy"}}},
+	{"two-character separators: sf2()||sf2()", [][]string{{"sf2()"}, {"sf2()"}}},
+	{"SFDigits2: w6.Generate||SFDigits2()||w6.Generate", [][]string{{"w6.Generate"}, {"SFDigits2()"}, {"w6.Generate"}}},
+	{"5001-word list: w5.Generate||w5.Entropy||w5.Generate", [][]string{{"w5.Generate"}, {"w5.Entropy"}, {"w5.Generate"}}},
 	{"class-flag recipe: Generate||Generate", [][]string{{"c2.Generate"}, {"c2.Generate"}}},
 	{"class-flag recipe: Generate||Entropy||Generate(other recipe)", [][]string{{"c2.Generate"}, {"c2.Entropy"}, {"c.Generate"}}},
 }
@@ -184,6 +226,14 @@ func c14Scenario1(c *core.Ctx, si int, sc c14Scenario, bound int) {
 	// first one in some worker: the scenario order is rotated by shard).
 	var want [][]string
 	mkTape := func(i int) *tape.Tape { return policyTape(c14Policies[i]) }
+	needBigList = false
+	for _, calls := range sc.Threads {
+		for _, name := range calls {
+			if strings.HasPrefix(name, "w5.") {
+				needBigList = true
+			}
+		}
+	}
 	for _, calls := range sc.Threads {
 		for _, name := range calls {
 			if c14Calls[name].Do == nil {
@@ -345,6 +395,9 @@ func c14Run(c *core.Ctx) {
 			cal.Rep(n, r)
 		}
 	}
+	for r := uint32(0); r < 5001; r++ {
+		cal.Rep(5001, r) // the big list of scenario w5
+	}
 	verifrt.PointHook = sched.Point
 	vsync.BlockHook = sched.Block
 	vsync.UnblockHook = sched.Unblock
@@ -428,7 +481,7 @@ func init() {
 		ID:    "C14",
 		Level: "model_checking",
 		Build: "race",
-		Rule: "19 scenarios of 2-3 threads x 1-2 calls on shared CharRecipe, WLRecipe, WordList, constructed and preset separator functions; scheduling points before every statement of package spg and at every lock operation of golang-set (instrumented copy, -race build); ALL schedules with at most 1 deviation from the default schedule (quick; thorough: at most 2 on every two-thread scenario) are executed by a controlled scheduler whose hand-offs are invisible to the race detector; " +
+		Rule: "23 scenarios of 2-3 threads x 1-2 calls on shared CharRecipe, WLRecipe, WordList, constructed and preset separator functions; scheduling points before every statement of package spg and at every lock operation of golang-set (instrumented copy, -race build); ALL schedules with at most 1 deviation from the default schedule (quick; thorough: at most 2 on every two-thread scenario) are executed by a controlled scheduler whose hand-offs are invisible to the race detector; " +
 			"every schedule starts from freshly built shared values (lazily initialised state is cold); oracle per schedule: every call returns what it returns alone on the same random stream, shared values unchanged, no deadlock, race detector silent; non-trivial = distinct (scenario, switches, results) observations",
 		Assume:  []string{"bounded deviations (preemptions and non-default thread choices both cost 1)", "memory-model effects beyond what the race detector flags are not modelled", "helper goroutines spawned by golang-set's Iter() talk only to their spawner and run free"},
 		Run:     c14Run,
